@@ -431,6 +431,22 @@ def stream_cfgs(tier, seed, classes=None, scale=1.0):
         out += with_clusters(rand_twolevel(rng, k, 500), rng, 0.4)
         out += with_clusters(rand_revolve3(rng, k, 110), rng, 0.5)
         out += with_clusters(rand_hrevolve(rng, k, 100), rng, 0.5)
+    # NumPy-typed integer parameters: every 11th configuration of the
+    # classes with integer constructor arguments (every 4th online basic
+    # one, where it is the finalize() argument that is NumPy-typed) is
+    # followed by a copy whose integers are passed as numpy.int64
+    out2 = []
+    for i, c in enumerate(out):
+        out2.append(c)
+        if "ints" in c or "flag" in c:
+            continue
+        m = 4 if c["cls"] in ("SingleMemory", "SingleDiskCopy",
+                              "SingleDiskMove", "None") else 11
+        if (i + seed) % m == 5 and c.get("n", 0) <= 1500:
+            d = dict(c)
+            d["ints"] = "np"
+            out2.append(d)
+    out = out2
     if classes is not None:
         out = [c for c in out if c["cls"] in classes]
     return out
